@@ -30,6 +30,8 @@ Definition dstat_eqb (a b : dstat) : bool :=
 (* a revision of the (linear) revision tree: generation, generation of its parent (0 = none), deleted flag and
    the body it was created for (its id is a digest of generation, parent id and body) *)
 Record rev := R { r_gen : N; r_parent : N; r_del : bool; r_body : N }.
+Definition rev_eqb (a b : rev) : bool :=
+  (r_gen a =? r_gen b) && (r_parent a =? r_parent b) && Bool.eqb (r_del a) (r_del b) && (r_body a =? r_body b).
 
 Record syncd := mkSync { s_cas : N; s_crc : N; s_cv : N; s_hist : list rev; s_seq : N }.   (* _sync *)
 Record vvd := mkVV { v_ver : N; v_cvcas : N }.                                             (* _vv *)
@@ -46,22 +48,26 @@ Inductive op :=
 
 Inductive res := ROk | RConflict | RNotFound | RIgnored | ROther.
 
+(* [imports], [exts], [wb] are ghost: ImportCount, number of external body writes, and liveness + body as left
+   by the last writer (an external write or an ACCEPTED gateway write) *)
 Record state := mkSt { clk : N; doc : bdoc; nseq : N; evs : list bdoc;
-                       imports : N; exts : N; hk : option (N * op) }.
-Definition init : state := mkSt 0 absent_doc 0 [absent_doc] 0 0 None.
+                       imports : N; exts : N; hk : option (N * op); wb : dstat * N }.
+Definition init : state := mkSt 0 absent_doc 0 [absent_doc] 0 0 None (Absent, 0).
 
 Definition set_doc (s : state) (d : bdoc) : state :=
-  mkSt (N.succ (clk s)) d (nseq s) (evs s) (imports s) (exts s) (hk s).
+  mkSt (N.succ (clk s)) d (nseq s) (evs s) (imports s) (exts s) (hk s) (wb s).
 Definition set_nseq (s : state) (n : N) : state :=
-  mkSt (clk s) (doc s) n (evs s) (imports s) (exts s) (hk s).
+  mkSt (clk s) (doc s) n (evs s) (imports s) (exts s) (hk s) (wb s).
 Definition set_hk (s : state) (h : option (N * op)) : state :=
-  mkSt (clk s) (doc s) (nseq s) (evs s) (imports s) (exts s) h.
+  mkSt (clk s) (doc s) (nseq s) (evs s) (imports s) (exts s) h (wb s).
 Definition add_import (s : state) : state :=
-  mkSt (clk s) (doc s) (nseq s) (evs s) (N.succ (imports s)) (exts s) (hk s).
+  mkSt (clk s) (doc s) (nseq s) (evs s) (N.succ (imports s)) (exts s) (hk s) (wb s).
 Definition add_ext (s : state) : state :=
-  mkSt (clk s) (doc s) (nseq s) (evs s) (imports s) (N.succ (exts s)) (hk s).
+  mkSt (clk s) (doc s) (nseq s) (evs s) (imports s) (N.succ (exts s)) (hk s) (wb s).
+Definition set_wb (s : state) (w : dstat * N) : state :=
+  mkSt (clk s) (doc s) (nseq s) (evs s) (imports s) (exts s) (hk s) w.
 Definition push_ev (s : state) : state :=
-  mkSt (clk s) (doc s) (nseq s) (evs s ++ [doc s]) (imports s) (exts s) (hk s).
+  mkSt (clk s) (doc s) (nseq s) (evs s ++ [doc s]) (imports s) (exts s) (hk s) (wb s).
 
 Definition hist_of (d : bdoc) : list rev := match d_sync d with Some sy => s_hist sy | None => [] end.
 Definition cur_rev (d : bdoc) : option rev := hd_error (hist_of d).
@@ -75,6 +81,7 @@ Definition doc_deleted (d : bdoc) : bool := negb (is_alive d) && has_sync d.
 Definition doc_body_nil (d : bdoc) : bool := negb (is_alive d) && negb (has_sync d).
 
 Section Model.
+Variable fixed : bool.      (* which code is modelled: instantiated with [code_fixed] (see above) *)
 Variable crc : N -> N.      (* crc32c of the body with a given id *)
 Variable delcrc : N.        (* base.DeleteCrc32c = crc32c of the empty value *)
 
@@ -169,7 +176,7 @@ Definition store_write (cur : bdoc) (p : prev) (u : update) (nc : N) : wres :=
     | Absent => if d_cas pd =? 0
                 then match u_body u with Some b => WOk (apply_upd false cur Alive b u nc) | None => WErr end
                 else WRetry
-    | Tomb => match u_body u with Some _ => WRetry | None => WErr end
+    | Tomb => match u_body u with Some _ => WRetry | None => if cas_ok then WErr else WRetry end
     | Alive => if cas_ok
                then WOk (apply_upd false cur Alive (match u_body u with Some b => b | None => d_body cur end) u nc)
                else WRetry
@@ -183,13 +190,13 @@ Definition ext_set (s : state) (b : N) : state :=
             | Alive => mkDoc Alive b nc (d_sync d) (d_vv d) (d_mou d)
             | _ => mkDoc Alive b nc None None None       (* xattrs are cleared when a tombstone is resurrected *)
             end in
-  add_ext (set_doc s d').
+  set_wb (add_ext (set_doc s d')) (Alive, b).
 
 Definition ext_del (s : state) : state * res :=
   let d := doc s in
   match d_st d with
   | Absent => (s, RNotFound)
-  | _ => (add_ext (set_doc s (mkDoc Tomb 0 (N.succ (clk s)) (d_sync d) (d_vv d) (d_mou d))), ROk)
+  | _ => (set_wb (add_ext (set_doc s (mkDoc Tomb 0 (N.succ (clk s)) (d_sync d) (d_vv d) (d_mou d)))) (Tomb, 0), ROk)
   end.
 
 Definition ext_touch (s : state) : state * res :=
@@ -212,55 +219,65 @@ Definition raw_of (d : bdoc) : option N := if is_alive d then Some (d_body d) el
 Section Procs.
 Variable fire : state -> state.
 
-Fixpoint upd_loop (fuel : nat) (cb : state -> prev -> state * cbres) (pv : option prev) (s : state) : state * lres :=
+(* rosmar WriteUpdateWithXattrs.  [m] is the state the Go closure keeps between attempts (captured variables
+   that the callback assigns: importDoc's existingDoc / body / isDelete, Put's matchRev). *)
+Fixpoint upd_loop {M : Type} (fuel : nat) (cb : M -> state -> prev -> state * cbres * M) (m : M)
+         (pv : option prev) (s : state) : state * lres :=
   match fuel with
   | O => (s, LErr EFuel)
   | S f =>
       let p := match pv with Some p => p | None => mkPrev (doc s) (is_tomb (doc s)) end in
-      let '(s1, r) := cb s p in
+      let '(s1, r, m') := cb m s p in
       let s2 := fire s1 in
       match r with
-      | CbRetry => upd_loop f cb None s2
+      | CbRetry => upd_loop f cb m' None s2
       | CbErr e => (s2, LErr e)
       | CbWrite u =>
           match store_write (doc s2) p u (N.succ (clk s2)) with
           | WOk d' => (set_doc s2 d', LOk)
-          | WRetry => upd_loop f cb None s2
+          | WRetry => upd_loop f cb m' None s2
           | WErr => (s2, LErr EOther)
           end
       end
   end.
 
 (* the callback importDoc hands to updateAndReturnDoc, followed by documentUpdateFunc / updateHLV(Import) *)
-Definition import_cb (feed isdel0 : bool) (ex_cas : N) (ex_raw0 : option N) (s : state) (p : prev) : state * cbres :=
-  let d := p_doc p in
-  let mism := negb (d_cas d =? ex_cas) in
-  if mism && feed then (s, CbErr ECasFail)
-  else if mism && doc_body_nil d then (s, CbErr EOther)
+Record imem := mkImem { im_del : bool; im_cas : N; im_raw : option N }.   (* isDelete, existingDoc.Cas, existingDoc.Body *)
+
+(* one attempt once it is settled which document version is imported and whether it is a delete *)
+Definition import_attempt (isdel : bool) (ex_raw : option N) (s : state) (d : bdoc) : state * cbres :=
+  if d_cas d =? 0 then (s, CbErr ECancelled)
+  else if isdel && negb (has_revtree d) then (s, CbErr ECancelled)
+  else if doc_is_sg_write d ex_raw then (s, CbErr EAlready)
   else
-    let isdel := if mism then (if code_fixed then doc_deleted d else isdel0) else isdel0 in
-    let ex_raw := if mism then (if code_fixed && isdel then None else Some (if is_alive d then d_body d else 0))
-                  else ex_raw0 in
-    if d_cas d =? 0 then (s, CbErr ECancelled)
-    else if isdel && negb (has_revtree d) then (s, CbErr ECancelled)
-    else if doc_is_sg_write d ex_raw then (s, CbErr EAlready)
-    else
-      let tag := match ex_raw with Some b => b | None => 0 end in
-      let pg := cur_gen d in
-      let nr := R (N.succ pg) pg isdel tag in
-      let vv' := match d_vv d with
-                 | Some v => if (v_cvcas v =? d_cas d) || mou_match d then v else mkVV (d_cas d) (d_cas d)
-                 | None => mkVV (d_cas d) (d_cas d)
-                 end in
-      let seq := N.succ (nseq s) in
-      let sy := mkSync 0 0 (v_ver vv') (nr :: hist_of d) seq in
-      let ub := if doc_deleted d then Some tag else None in
-      (set_nseq s seq, CbWrite (mkUpd isdel ub sy true (Some (vv', false)) (MouSet (mou_pcas d)))).
+    let tag := match ex_raw with Some b => b | None => 0 end in
+    let pg := cur_gen d in
+    let nr := R (N.succ pg) pg isdel tag in
+    let vv' := match d_vv d with
+               | Some v => if (v_cvcas v =? d_cas d) || mou_match d then v else mkVV (d_cas d) (d_cas d)
+               | None => mkVV (d_cas d) (d_cas d)
+               end in
+    let seq := N.succ (nseq s) in
+    let sy := mkSync 0 0 (v_ver vv') (nr :: hist_of d) seq in
+    let ub := if doc_deleted d then Some tag else None in
+    (set_nseq s seq, CbWrite (mkUpd isdel ub sy true (Some (vv', false)) (MouSet (mou_pcas d)))).
+
+Definition import_cb (feed : bool) (m : imem) (s : state) (p : prev) : state * cbres * imem :=
+  let d := p_doc p in
+  let mism := negb (d_cas d =? im_cas m) in
+  if mism && feed then (s, CbErr ECasFail, m)
+  else if mism && doc_body_nil d then (s, CbErr EOther, m)
+  else
+    let isdel := if mism then (if fixed then doc_deleted d else im_del m) else im_del m in
+    let ex_raw := if mism then (if fixed && isdel then None else Some (if is_alive d then d_body d else 0))
+                  else im_raw m in
+    let '(s1, r) := import_attempt isdel ex_raw s d in
+    (s1, r, mkImem isdel (d_cas d) ex_raw).
 
 Inductive ires := IImported | IAlready | ICancelled | ICasFail | IErr.
 
 Definition import_run (feed isdel : bool) (ex : bdoc) (ex_raw : option N) (s : state) : state * ires :=
-  let '(s', r) := upd_loop 6 (import_cb feed isdel (d_cas ex) ex_raw) (Some (mkPrev ex false)) s in
+  let '(s', r) := upd_loop 6 (import_cb feed) (mkImem isdel (d_cas ex) ex_raw) (Some (mkPrev ex false)) s in
   match r with
   | LOk => (add_import s', IImported)
   | LErr EAlready => (s', IAlready)
@@ -271,7 +288,7 @@ Definition import_run (feed isdel : bool) (ex : bdoc) (ex_raw : option N) (s : s
 
 (* OnDemandImportForWrite(doc, deleted): [Some e] = the error it returns *)
 Definition odw_is_delete (d : bdoc) (incoming_deleted : bool) : bool :=
-  if code_fixed then doc_body_nil d || doc_deleted d
+  if fixed then doc_body_nil d || doc_deleted d
   else if doc_body_nil d then true else incoming_deleted.
 
 Definition odw (s : state) (d : bdoc) (incoming_deleted : bool) : state * option cbres :=
@@ -286,47 +303,49 @@ Definition odw (s : state) (d : bdoc) (incoming_deleted : bool) : state * option
     end.
 
 (* Put's callback ([b = None]: _deleted), then documentUpdateFunc / updateHLV(NewVersion) *)
-Definition put_cb (b : option N) (matchrev : N) (s : state) (p : prev) : state * cbres :=
+Definition put_cb (b : option N) (matchrev : list rev) (s : state) (p : prev) : state * cbres * list rev :=
   let d := p_doc p in
   let deleted := match b with None => true | Some _ => false end in
   let '(s1, early) := if doc_is_sg_write d None then (s, None) else odw s d deleted in
   match early with
-  | Some r => (s1, r)
+  | Some r => (s1, r, matchrev)
   | None =>
       let cur := cur_rev d in
+      (* "matchRev = doc.GetRevTreeID()" assigns the captured variable: later attempts see it *)
+      let matchrev' := match matchrev with [] => hist_of d | _ => matchrev end in
       let parent :=
-        if matchrev =? 0 then
+        match matchrev with
+        | [] =>
           match cur with
           | Some r => if r_del r then Some (r_gen r) else None      (* 409 Document exists *)
           | None => Some 0
           end
-        else
-          match cur with
-          | Some r => if r_gen r =? matchrev then Some matchrev else None   (* not a leaf: 409 *)
-          | None => None
-          end in
+        | m :: _ =>
+          (* the revision id is a digest of its whole ancestry: it is a leaf iff it heads the current chain *)
+          if list_eqb rev_eqb (hist_of d) matchrev then Some (r_gen m) else None   (* not a leaf: 409 *)
+        end in
       match parent with
-      | None => (s1, CbErr EConflict)
+      | None => (s1, CbErr EConflict, matchrev')
       | Some pg =>
           let nr := R (N.succ pg) pg deleted (match b with Some x => x | None => 0 end) in
           let seq := N.succ (nseq s1) in
           let ver := N.succ (clk s1) in
           let sy := mkSync 0 0 ver (nr :: hist_of d) seq in
           let mou := match d_mou d with Some _ => if is_alive d then MouDel else MouKeep | None => MouKeep end in
-          (set_nseq s1 seq, CbWrite (mkUpd deleted b sy true (Some (mkVV ver 0, true)) mou))
+          (set_nseq s1 seq, CbWrite (mkUpd deleted b sy true (Some (mkVV ver 0, true)) mou), matchrev')
       end
   end.
 
 (* ResyncDocument(regenerateSequences = true)'s callback *)
-Definition meta_cb (s : state) (p : prev) : state * cbres :=
+Definition meta_cb (m : unit) (s : state) (p : prev) : state * cbres * unit :=
   let d := p_doc p in
-  if negb (is_alive d) then (s, CbErr EUpdateCancel)
+  if negb (is_alive d) then (s, CbErr EUpdateCancel, tt)
   else match d_sync d with
-       | None => (s, CbErr EUpdateCancel)
+       | None => (s, CbErr EUpdateCancel, tt)
        | Some sy =>
            let seq := N.succ (nseq s) in
            let sy' := mkSync (s_cas sy) (s_crc sy) (s_cv sy) (s_hist sy) seq in
-           (set_nseq s seq, CbWrite (mkUpd false None sy' false None (MouSet (mou_pcas d))))
+           (set_nseq s seq, CbWrite (mkUpd false None sy' false None (MouSet (mou_pcas d))), tt)
        end.
 
 Definition res_of_lres (r : lres) : res :=
@@ -338,14 +357,18 @@ Definition res_of_lres (r : lres) : res :=
   end.
 
 (* client side of a gateway write: the parent revision is what _sync records as current (raw read) *)
-Definition client_rev (d : bdoc) : N :=
-  match cur_rev d with Some r => if r_del r then 0 else r_gen r | None => 0 end.
+Definition client_rev (d : bdoc) : list rev :=
+  match cur_rev d with Some r => if r_del r then [] else hist_of d | None => [] end.
 
 Definition gw_put (b : option N) (s : state) : state * res :=
-  let '(s', r) := upd_loop 6 (put_cb b (client_rev (doc s))) None s in (s', res_of_lres r).
+  let '(s', r) := upd_loop 6 (put_cb b) (client_rev (doc s)) None s in
+  match r with
+  | LOk => (set_wb s' (match b with Some x => (Alive, x) | None => (Tomb, 0) end), ROk)
+  | _ => (s', res_of_lres r)
+  end.
 
 Definition gw_meta (s : state) : state * res :=
-  let '(s', r) := upd_loop 6 meta_cb None s in (s', res_of_lres r).
+  let '(s', r) := upd_loop 6 meta_cb tt None s in (s', res_of_lres r).
 
 (* GetDocumentWithRaw *)
 Definition no_xattrs (d : bdoc) : bool :=
